@@ -63,6 +63,10 @@ inductive Stmt
   | throw_ (e : Nat)                   -- throw Err{e}
   | stopIfRequested                    -- co_await stop_if_requested()
   | resched (k : Nat)                  -- co_await schedule(scheduler k): the task moves to scheduler k (task.cpp)
+  | stopIfRequestedS                   -- co_await then(stop_if_requested(), f): the SENDER route (its operation state,
+                                       --   not its awaiter) — stop_if_requested.hpp `_op::start`
+  | awaitPlain (i : Nat) (try_ : Bool) -- acc += co_await <plain awaitable i> (not a sender): await_transform →
+                                       --   with_scheduler_affinity → as_sender/connect_awaitable → one scheduler hop
   deriving Repr
 
 abbrev Prog := List Stmt
@@ -74,6 +78,8 @@ inductive Out
   | reg (f a : Nat)                    -- cleanup a registered in frame f
   | leafStart (i : Nat) (stopped : Bool)
   | leafStop (i : Nat)                 -- leaf i got a stop notification
+  | plainStart (i : Nat)               -- plain awaitable i was awaited (its await_ready ran)
+  | tokRegs (n : Nat)                  -- (foreign stop-token type) n callbacks are registered on the receiver's token
   | localsDead (f : Nat)               -- locals of frame f destroyed
   | cleanup (f a : Nat)                -- cleanup a of frame f ran
   | cleanupSched (k : Nat)             -- … and the scheduler it sees is k (the task's scheduler when it was registered)
@@ -116,6 +122,7 @@ inductive Ctl
   | exit (o : Outcome)                 -- the top frame's body is over with o; its cleanups are running
                                        --   (o = done: the unhandled_done path, body not resumed)
   | waitLeaf (i : Nat)                 -- suspended in co_await of body leaf i
+  | waitPlain (i : Nat)                -- suspended in co_await of plain awaitable i (it cannot see stop requests)
   | waitHop                            -- the awaited leaf has completed; its result is queued on the scheduler
   | waitSched (k : Nat)                -- suspended in `co_await schedule(k)` (stoppable: it sees the task's stop token)
   | waitCleanup (i : Nat) (o : Outcome)  -- a cleanup action of the top frame awaits leaf i; exit outcome o
@@ -142,6 +149,10 @@ structure St where
   inlineSched : Bool                   -- schedule() completes inside start()
   stoppable : Bool                     -- the receiver's stop token can request stop (else: no thunk, task.hpp
                                        --   connect → sa_task; stop events do nothing)
+  adapter : Bool                       -- the receiver's stop token is not an inplace_stop_token: the awaiter of the thunk
+                                       --   subscribes an inplace_stop_token_adapter to it (task.hpp `_awaiter`)
+  tokRegs : Nat                        -- callbacks currently registered on the receiver's stop token (the thunk's stop
+                                       --   callback, or the adapter's)
   rootStopped : Bool                   -- stop requested on the receiver's token
   srcStopped : Bool                    -- stop requested on the thunk's source (what tasks/leaves see)
   stopOp : Bool                        -- the deferred stop request is in flight (refCount_ = 2)
@@ -154,9 +165,9 @@ def rootFrame (p : Prog) : Frame :=
     regd := [], ran := [] }
 
 /-- `connect(task, receiver)`: the root frame exists (the coroutine was called), nothing runs -/
-def St.init (p : Prog) (inlineSched : Bool) (stoppable : Bool := true) : St :=
+def St.init (p : Prog) (inlineSched : Bool) (stoppable : Bool := true) (adapter : Bool := false) : St :=
   { ctl := .idle, frames := [rootFrame p], zombies := [], gone := [], queue := [], inlineSched := inlineSched,
-    stoppable := stoppable, rootStopped := false, srcStopped := false, stopOp := false, nextId := 1, outs := [] }
+    stoppable := stoppable, adapter := adapter, tokRegs := 0, rootStopped := false, srcStopped := false, stopOp := false, nextId := 1, outs := [] }
 
 def emit (s : St) (o : Out) : St := { s with outs := s.outs ++ [o] }
 
@@ -174,10 +185,25 @@ def schedHop (s : St) (k : Nat) (o : Outcome) : St :=
 def leafDone (s : St) (affine : Bool) (k : Nat) (o : Outcome) : St :=
   if affine then { s with ctl := .resume o } else schedHop s k o
 
-/-- the root task has finished with `o` (thunk: `complete_and_choose_continuation`) -/
+/-- a plain awaitable has no done channel -/
+def plainOutcome : Outcome → Outcome
+  | .done => .value 0
+  | o => o
+
+/-- the receiver is completed with `o`.  With a foreign stop-token type the awaiter's `await_resume`
+    unsubscribes the adapter first (value / exception); on done the awaiter is not resumed and keeps the
+    subscription until it is destroyed with the operation state. -/
+def signal (s : St) (o : Outcome) : St :=
+  let s1 := if s.adapter = true ∧ o ≠ .done then { s with tokRegs := 0 } else s
+  let s2 := if s.adapter then emit s1 (.tokRegs s1.tokRegs) else s1
+  { emit s2 (.root o) with ctl := .finished }
+
+/-- the root task has finished with `o` (thunk: `complete_and_choose_continuation`: its stop callback is
+    destroyed — with an inplace_stop_token that is the registration on the receiver's token) -/
 def rootDone (s : St) (o : Outcome) : St :=
-  if s.stopOp then { s with ctl := .waitJoin o }
-  else { emit s (.root o) with ctl := .finished }
+  let s0 := if s.adapter then s else { s with tokRegs := 0 }
+  if s.stopOp then { s0 with ctl := .waitJoin o }
+  else signal s0 o
 
 /-- the body of the top frame ends with a value (co_return) or an escaped exception: locals die -/
 def beginExit (s : St) (fr : Frame) (rest : List Frame) (o : Outcome) : St :=
@@ -191,6 +217,15 @@ def execStep (s : St) (fr : Frame) (rest : List Frame) : St :=
   | .stopIfRequested :: k =>
     if s.srcStopped then { s with frames := { fr with kont := k } :: rest, ctl := .exit .done }
     else { s with frames := { fr with kont := k } :: rest }
+  | .stopIfRequestedS :: k =>
+    -- the sender's operation state asks the same question of the same token
+    if s.srcStopped then { s with frames := { fr with kont := k } :: rest, ctl := .exit .done }
+    else { s with frames := { fr with kont := k } :: rest }
+  | .awaitPlain i t :: k =>
+    let s1 := emit { s with frames := { fr with kont := k, catching := t } :: rest } (.plainStart i)
+    match (specs i).kind with
+    | .inline o => leafDone s1 false fr.sched (plainOutcome o)   -- ready, or await_suspend said "not suspending"
+    | .pending _ => { s1 with ctl := .waitPlain i }
   | .atExit a l :: k =>
     emit { s with frames := { fr with kont := k, cleanups := (a, ckOf l, fr.sched) :: fr.cleanups, regd := a :: fr.regd } :: rest }
       (.reg fr.id a)
@@ -341,7 +376,7 @@ def deliverStop (s : St) : St :=
 def stopOpDone (s : St) : St :=
   let s1 := { s with stopOp := false }
   match s1.ctl with
-  | .waitJoin o => { emit s1 (.root o) with ctl := .finished }
+  | .waitJoin o => signal s1 o
   | _ => s1
 
 def Ctl.callbackRegistered : Ctl → Bool
@@ -370,7 +405,7 @@ def onStart (s : St) : St :=
       (if s.inlineSched then { emit s (.sched 0) with srcStopped := true }
        else { emit s (.sched 0) with stopOp := true, queue := s.queue ++ [.stopReq] })
     else s
-  settle specs (emit { s1 with ctl := .exec, frames := startFrames s1.frames } (.frameStart 0))
+  settle specs (emit { s1 with ctl := .exec, frames := startFrames s1.frames, tokRegs := if s.stoppable then 1 else 0 } (.frameStart 0))
 
 def onRun (s : St) : St :=
   match s.queue with
@@ -390,6 +425,7 @@ def onRun (s : St) : St :=
 def onComplete (s : St) (i : Nat) (o : Outcome) : St :=
   match s.ctl with
   | .waitLeaf j => if i = j then settle specs (leafDone s (specs i).affine s.topSched o) else s
+  | .waitPlain j => if i = j then settle specs (leafDone s false s.topSched (plainOutcome o)) else s
   | .waitCleanup j x =>
     if i = j then
       match o with
@@ -407,7 +443,9 @@ def destroyFrames (s : St) : List Frame → St
 /-- the operation state is destroyed: every frame still allocated is destroyed, innermost first -/
 def onDestroy (s : St) : St :=
   if s.ctl = .finished ∨ s.ctl = .idle then
-    destroyFrames { s with frames := [], zombies := [] } (s.zombies ++ s.frames)
+    -- the awaiter's destructor unsubscribes the adapter if the task was cancelled (dirty bit still set)
+    let s1 := { destroyFrames { s with frames := [], zombies := [] } (s.zombies ++ s.frames) with tokRegs := 0 }
+    if s.adapter then emit s1 (.tokRegs 0) else s1
   else s   -- destroying a running operation is outside the sender contract
 
 /-- is the event meaningful in this state?  (the harness prints `!!bad-op` otherwise) -/
@@ -418,6 +456,7 @@ def evOk (s : St) : Ev → Bool
   | .complete i _ =>
     match s.ctl with
     | .waitLeaf j => i = j
+    | .waitPlain j => i = j
     | .waitCleanup j _ => i = j
     | _ => false
   | .destroy => s.ctl = .finished || s.ctl = .idle
@@ -477,6 +516,8 @@ def evalStmt (stopped : Bool) : Stmt → Nat → List Nat → List Nat → SRes
   | .throw_ e, _, _, ran => .exit (.error e) ran
   | .stopIfRequested, acc, reg, ran => if stopped then .exit .done ran else .next acc reg ran
   | .resched _, acc, reg, ran => .next acc reg ran   -- outside the spec (`Stmt.inline` is false for it)
+  | .stopIfRequestedS, acc, reg, ran => if stopped then .exit .done ran else .next acc reg ran
+  | .awaitPlain i t, acc, reg, ran => absorb t acc reg ran (plainOutcome (leafOutcome specs i))
 /-- a frame running the statements `k`: its outcome, and all cleanups that have run when its parent
     observes that outcome (its own registered cleanups last, most recent first) -/
 def evalFrame (stopped : Bool) : List Stmt → Nat → List Nat → List Nat → Outcome × List Nat
@@ -509,6 +550,7 @@ def Stmt.inline (inlineSched : Bool) : Stmt → Bool
   | .awaitTask p _ => progInline inlineSched p
   | .atExit _ l => cleanupSync specs l
   | .resched _ => false
+  | .awaitPlain i _ => (specs i).kind.isInline && inlineSched   -- a plain awaitable is never scheduler-affine
   | _ => true
 def progInline (inlineSched : Bool) : List Stmt → Bool
   | [] => true
